@@ -134,7 +134,7 @@ class C08(Check):
         "conclusion arguments are variables occurring in the branch's own conditions (a conclusion over a variable no holding condition mentions is ill-formed)",
         "branch conditions range over the base query's variables only, so 'a binding' is a total assignment of those variables",
         "conclusions are compared as sets (the engine de-duplicates conclusions; the statement promises no multiplicity)",
-        "an alternative written after a next_rule in the same chain is not generated (whether the next_rule counts as an 'earlier branch of its chain' is a matter of reading)",
+        "an alternative written after a next_rule: 'its chain' is read either as everything written before it or as the branches since that next_rule; where the readings differ the alternative's conclusions are allowed but not required",
         "blocks written below an alternative/next_rule branch only mention that branch's variables (primary fragment)",
         "conditions are comparisons/membership/boolean calls combined with and_ (the C02 fragment without or_)",
     ]
@@ -256,15 +256,22 @@ class C08(Check):
             return True, lo, up
 
         def eval_chain(chain, s):
-            fired_any, lo, up = False, frozenset(), frozenset()
+            """An alternative fires iff no earlier branch of its chain fired. When a next_rule was written earlier in
+            the chain, 'its chain' has two readings - everything written before it, or the branches since that
+            next_rule - which differ only when something fired before the next_rule and nothing since: there the
+            alternative's conclusions are allowed but not required."""
+            fired_any, fired_since_next, lo, up = False, False, frozenset(), frozenset()
             for kind, blk in chain:
-                if kind == "alternative" and fired_any:
+                if kind == "alternative" and fired_since_next:
                     overridden[0] = True
                     continue
+                ambiguous = kind == "alternative" and fired_any
                 f, l, u = eval_unit(blk, s)
+                if kind == "next_rule":
+                    fired_since_next = False
                 if f:
-                    fired_any = True
-                    lo, up = lo | l, up | u
+                    fired_any = fired_since_next = True
+                    lo, up = (lo if ambiguous else lo | l), up | u
             return fired_any, lo, up
 
         lower, upper = set(), set()
@@ -324,10 +331,6 @@ class C08(Check):
     def run(self, ir) -> Outcome:
         objs = lang.build_world(ir["world"])
         feats = shape_features(ir["tree"])
-        if "alternative_after_next_rule" in feats:
-            # whether "no earlier branch of its chain fired" includes a next_rule written before the alternative
-            # is a matter of reading; such chains are not judged
-            return Outcome(rejected=True)
         classes = sorted(x for x in feats)
         lower, upper, overridden = self.oracle(ir, objs)
         nontrivial = len({k for k, _ in upper}) >= 2 and overridden
